@@ -4,7 +4,7 @@ import os
 import sys
 
 from . import eng_exec
-from .common import WORK, Stats, Violation, pmap, shim, finish, collect
+from .common import strip_log_lines, WORK, Stats, Violation, pmap, shim, finish, collect
 
 B = 3000
 
@@ -17,10 +17,7 @@ OBSERVERS = ['', '항. 항.', '하앙.', '흑. 항', '흑.. 항']
 
 
 def strip_banner(out):
-    i = out.find(b'==> running code\n')
-    if i < 0:
-        return b''
-    return out[i + len(b'==> running code\n'):]
+    return strip_log_lines(out)
 
 
 def split_diag(err):
